@@ -455,7 +455,52 @@ func Encodings(v spec.Vec, f func(s, label string)) {
 	f(strings.ReplaceAll(base, "/", "\\/"), "encoded:json-slash")
 }
 
+// ControlPrefixes: one to three low bytes (0..8, the range of name and value lengths) in
+// front of, behind, or instead of the first character of a token's name or value; also an
+// extra copy of the token carrying them (a hidden duplicate). A parser that folds a name
+// into an integer together with its length, or that skips bytes below a threshold, takes
+// exactly these for the plain name.
+func ControlPrefixes(v spec.Vec, f func(s, label string)) {
+	segs := segsOf(v)
+	first := 0
+	if v.Ver != "" {
+		first = 1
+	}
+	join := func(i int, tok string, extra bool) string {
+		out := append([]string(nil), segs...)
+		if extra {
+			out = append(out, tok)
+		} else {
+			out[i] = tok
+		}
+		return strings.Join(out, "/")
+	}
+	for i := first; i < len(segs); i++ {
+		name, value, ok := strings.Cut(segs[i], ":")
+		if !ok {
+			continue
+		}
+		for b := 0; b <= 8; b++ {
+			for _, pre := range []string{string([]byte{byte(b)}), string([]byte{0, byte(b)}), string([]byte{0, 0, byte(b)}), "ZZ" + string([]byte{byte(b)})} {
+				f(join(i, pre+name+":"+value, false), "control:before-name")
+				f(join(i, pre+name+":"+value, true), "control:hidden-duplicate")
+				f(join(i, name+":"+pre+value, false), "control:before-value")
+			}
+			f(join(i, name+string([]byte{byte(b)})+":"+value, false), "control:after-name")
+			f(join(i, name+":"+value+string([]byte{byte(b)}), false), "control:after-value")
+		}
+	}
+	// the same in front of the version prefix
+	if v.Ver != "" {
+		for b := 0; b <= 8; b++ {
+			f(string([]byte{byte(b)})+v.String(), "control:before-prefix")
+			f(strings.Replace(v.String(), "CVSS:", "CVSS:"+string([]byte{byte(b)}), 1), "control:inside-prefix")
+		}
+	}
+}
+
 func Shapes(ver int, v spec.Vec, level spec.Level, full bool, f func(s, label string)) {
+	ControlPrefixes(v, f)
 	Encodings(v, f)
 	Presentations(v, f)
 	ValueRuns(ver, v, f)
